@@ -162,6 +162,45 @@ def parseCtx (s : String) : Row.Ctx :=
     | [n, v] => some (n, parseDVal v)
     | _ => none
 
+
+/-! ### whole-batch row builder ops (Model/Insert, Spec/Insert)
+    batch := block `!` block …      block := ctx `~` tx `^` tx …      tx := ctx `&` log `+` log … `&` trace `+` trace …
+    log := ctx `%` topics `%` payload `%` cap      payload := `V@`vdesc | `R@`hex      (`_` = empty list) -/
+
+def parseALog (s : String) : Option Shovel.Insert.ALog :=
+  match s.splitOn "%" with
+  | [c, tops, pl, cap] =>
+    let topics := (splitList tops ",").map (fun h => (hexArg h).getD [])
+    let payload : Option Shovel.Insert.Payload :=
+      match pl.splitOn "@" with
+      | ["V", vd] => (Abi.parseValDesc vd).map fun v => .enc v []
+      | ["R", h] => (hexArg h).map .raw
+      | _ => none
+    match payload, cap.toNat? with
+    | some p, some k => some { fields := parseCtx c, topics := topics, payload := p, cap := k }
+    | _, _ => none
+  | _ => none
+
+def parseATx (s : String) : Option Shovel.Insert.ATx :=
+  match s.splitOn "&" with
+  | [c, ls, ts] =>
+    ((splitList ls "+").mapM parseALog).map fun logs =>
+      { fields := parseCtx c, logs := logs, traces := (splitList ts "+").map parseCtx }
+  | _ => none
+
+def parseABlock (s : String) : Option Shovel.Insert.ABlock :=
+  match s.splitOn "~" with
+  | [c, txs] => ((splitList txs "^").mapM parseATx).map fun ts => { fields := parseCtx c, txs := ts }
+  | _ => none
+
+def parseMode (s : String) : Option Shovel.Insert.Mode :=
+  if s == "tx" then some .tx else if s == "trace" then some .trace else if s == "log" then some .log else none
+
+/-- capacity: the harness gives the real slice's capacity; never below the length -/
+def fixCaps (ty : Abi.Ty) (bs : List Shovel.Insert.ABlock) : List Shovel.Insert.ABlock :=
+  bs.map fun b => { b with txs := b.txs.map fun t => { t with logs := t.logs.map fun l =>
+    { l with cap := max l.cap (l.data ty).length } } }
+
 def step (line : String) : String :=
   match (line.splitOn " ").filter (· ≠ "") with
   | ["abitype", desc] =>
@@ -251,6 +290,45 @@ def step (line : String) : String :=
       let as := Row.pushedAddrs d
       if as.isEmpty then "-" else ",".intercalate (as.map hexOfBytes)
     | none => "bad-op"
+  | ["insertb", mode, agg, desc, ifl, bsp, sh, refs, base, nprev, batch] =>
+    -- model side: Integration.Insert on a batch, on a decoder that has already served `nprev` copies of the batch
+    match parseMode mode, parseDecl agg desc ifl bsp sh, (splitList batch "!").mapM parseABlock, nprev.toNat? with
+    | some m, some d, some bs, some k =>
+      match Abi.eventAbiType d.inputs with
+      | .ok ty =>
+        let bs := fixCaps ty bs
+        let es := bs.map (Shovel.Insert.ABlock.toE ty)
+        let rec warm : Nat → Abi.St → Abi.St
+          | 0, s => s
+          | n + 1, s => match Shovel.Insert.insert (parseRefs refs) d ty m (parseCtx base) es s with
+            | .ok (_, s') => warm n s'
+            | _ => warm n s
+        match Shovel.Insert.insert (parseRefs refs) d ty m (parseCtx base) es (warm k (Abi.newResult ty)) with
+        | .ok (rows, _) => showDRows rows
+        | r => r.tag
+      | r => r.tag
+    | _, _, _, _ => "bad-op"
+  | ["insertbspec", mode, agg, desc, ifl, bsp, sh, refs, base, batch, impl] =>
+    -- oracle: the rows the Lean Spec demands for the whole batch vs what the implementation handed to COPY
+    match parseMode mode, parseDecl agg desc ifl bsp sh, (splitList batch "!").mapM parseABlock with
+    | some m, some d, some bs =>
+      match Abi.eventAbiType d.inputs with
+      | .ok ty =>
+        if !ty.inDomain then "ok"
+        else
+          let bs := fixCaps ty bs
+          let wt := bs.all fun b => b.txs.all fun t => t.logs.all fun l =>
+            match l.payload with
+            | .enc v _ => Abi.WellTyped ty v && !(Abi.enc ty v).isEmpty
+            | .raw r => r.isEmpty || !Shovel.Insert.isDeclared d l
+          if !wt then "ok"
+          else match Shovel.Insert.specInsert (parseRefs refs) d ty m (parseCtx base) bs with
+            | none => "ok"
+            | some rs =>
+              let want := (showDRows rs).replace " " "#"
+              if want == impl then "ok" else s!"viol spec demands {want}"
+      | _ => "ok"
+    | _, _, _ => "bad-op"
   | "rpcget" :: plan :: start :: limit :: xs =>
     match start.toNat?, limit.toNat?, xs.mapM parseExch with
     | some st, some lim, some xs =>
